@@ -190,6 +190,10 @@ if __name__ == '__main__':
     if len(sys.argv) < 4:
         print(__doc__)
         sys.exit(2)
+    # one user of a scratch worktree at a time
+    import fcntl
+    _lock = open(f'/tmp/wt/{sys.argv[2]}.lock', 'w')
+    fcntl.flock(_lock, fcntl.LOCK_EX)
     if sys.argv[1] == 'confirm':
         sys.exit(confirm(sys.argv[2], sys.argv[3]))
     sys.exit(evaluate(sys.argv[2], sys.argv[3], sys.argv[4:]))
